@@ -67,6 +67,7 @@ THEOREMS = [
     "Baize.Errors.entry_points_never_crash_partial",
     "Baize.Errors.benign_good",
     "Baize.Errors.source_pinned",
+    "Baize.Errors.other_callees_pinned",
 ]
 GEN_MODULES = ["c12"]
 MANIFEST = {
